@@ -31,7 +31,7 @@ ASSUMPTIONS = [
     "argument-wise subtyping is only asserted for equal arity",
 ]
 REPORT_COUNTERS = ["calls", "calls_passed_generic", "calls_passed_nested", "calls_any", "two_type_methods_applicable",
-                   "unique_best_checked", "pos_subtler", "pos_plain_type", "strict_first_posonly", "strict_first_names"]
+                   "unique_best_checked", "pos_subtler", "pos_plain_type", "strict_first_posonly", "strict_first_names", "resolve_checked"]
 
 
 def plan(tier):
@@ -173,6 +173,19 @@ def check_case(spec, res):
             res.nontrivial([sigkey, [T.vname(a) for a in args]])
         out = outcome(lambda: o(*vals), vf)
         callname = [T.vname(a) for a in args]
+        # resolve() must name the method the call enters (or raise the same kind of error), for passed types too
+        from ..methods import mid_of_handler
+        from ..observe import classify_exception
+        try:
+            rh = ("handler", mid_of_handler(o.resolve(*vals)))
+        except Exception as e:  # noqa: BLE001
+            rh = classify_exception(e, vf)
+        res.count("resolve_checked")
+        if out[0] == "ran" and rh != ("handler", out[1][0] if out[1] else None) or \
+                out[0] in ("none", "amb") and rh[0] not in (out[0], "bind"):
+            res.violation("resolve-vs-call", [out[0], rh[0]], spec,
+                          observed={"call": callname, "call_outcome": [str(x) for x in out[:2]], "resolve": [str(x) for x in rh[:2]]},
+                          acceptable="resolve() names the method the call runs")
         if out[0] == "ran":
             got = out[1][0] if out[1] else None
             if got not in app_ids:
